@@ -129,6 +129,8 @@ def generate(rng, tier, index):
         what = rng.choice(["find_answer", "solve", "solve"])
         if mode == "scripted" and backend == "sugar":
             what = "find_answer"  # a scripted always-SAT peer would make the refute loop endless by the peer's own fault
+        if scale and backend == "sugar":
+            what = "find_answer"  # thousands of keys through a refute loop: any algorithm needs >= one call per key
         ops.append({"op": what})
     sc["ops"] = ops
     return sc
